@@ -2,9 +2,12 @@
    header/parser.rs (+ parser/record/...).  Modelled: the fileformat line, INFO / FORMAT / FILTER /
    ALT / contig map lines (ID, Number, Type, Description, length, md5, URL, IDX and "other" fields
    with quoted and backslash-escaped values), unstructured ##key=value lines, and the #CHROM line
-   with the sample names.  Not modelled: structured "other" lines (##META, ##PEDIGREE, ##SAMPLE,
-   any ##key=<...>): the parser model answers [None] on them; the reserved-definition check of
-   INFO/FORMAT IDs (IDs are assumed not to be reserved keys of the file format); UTF-8 validity.
+   with the sample names, and (wave 8) the STRUCTURED other records: ##META (parse_meta, the
+   Values=[..] list, Number/Type/Values written raw), ##PEDIGREE (parse_pedigree, with the
+   pre-4.3 Child= / Derived= identifier tag) and any ##key=<ID=..,k="v"> (is_map / parse_other),
+   collected per key as Collection::Unstructured / Collection::Structured with the TypeMismatch and
+   DuplicateId errors of Collection::add.  The reserved-definition check of INFO/FORMAT IDs is in
+   NV.Vcf.File (parse_header_chk); UTF-8 validity is not modelled.
    A header is its list of lines (no terminators).  Definitions only. *)
 From Coq Require Import List NArith Bool.
 From NV Require Import Text.TextBase Vcf.Values Vcf.Line.
@@ -33,6 +36,9 @@ Definition s_Character : list N := [67; 104; 97; 114; 97; 99; 116; 101; 114].
 Definition s_String : list N := [83; 116; 114; 105; 110; 103].
 Definition k_META : list N := [77; 69; 84; 65].
 Definition k_PEDIGREE : list N := [80; 69; 68; 73; 71; 82; 69; 69].
+Definition s_Values : list N := [86; 97; 108; 117; 101; 115].
+Definition s_Child : list N := [67; 104; 105; 108; 100].
+Definition s_Derived : list N := [68; 101; 114; 105; 118; 101; 100].
 Definition c_CHROM : list N := [35; 67; 72; 82; 79; 77].
 Definition c_POS : list N := [80; 79; 83].
 Definition c_REF : list N := [82; 69; 70].
@@ -54,11 +60,21 @@ Record hmap := {
   m_others : list (list N * list N)
 }.
 
+(* Map<Other>: the identifier tag (ID; Child / Derived for a parsed pre-4.3 PEDIGREE), the
+   identifier (the key of the IndexMap), the other fields in insertion order *)
+Record omap := { o_idtag : list N; o_id : list N; o_fields : list (list N * list N) }.
+
+(* header::record::value::Collection *)
+Inductive hcoll := CU (vs : list (list N)) | CS (ms : list omap).
+
+(* header::record::Value of an other record *)
+Inductive oval := OVStr (v : list N) | OVMap (m : omap).
+
 Record vheader := {
   hh_ff : N * N;
   hh_infos : list hmap; hh_filters : list hmap; hh_formats : list hmap; hh_alts : list hmap;
   hh_contigs : list hmap;
-  hh_others : list (list N * list (list N));          (* unstructured lines, grouped by key *)
+  hh_others : list (list N * hcoll);                  (* other records, one collection per key *)
   hh_samples : list (list N)
 }.
 
@@ -121,10 +137,29 @@ Definition w_other_value (ff : N * N) (v : list N) : option (list N) :=
        | b :: _ => if b =? 60 then None else Some v
        end.
 
-Definition w_other_group (ff : N * N) (g : list N * list (list N)) : option (list (list N)) :=
-  sequence (map (fun v => match w_other_value ff v with
-                          | Some t => Some (w_line (fst g) t)
-                          | None => None end) (snd g)).
+(* value/map/meta.rs::write_meta: Number, Type and Values raw, every other field quoted;
+   value/map/other.rs::write_other: every field quoted *)
+Definition meta_raw_key (k : list N) : bool :=
+  bytes_eqb k t_Number || bytes_eqb k t_Type || bytes_eqb k s_Values.
+
+Definition w_ofield (meta : bool) (kv : list N * list N) : list N :=
+  if meta && meta_raw_key (fst kv) then w_raw_field (fst kv) (snd kv) else w_str_field (fst kv) (snd kv).
+
+(* write_other_map: '<' id_tag '=' id (raw), the fields, '>' *)
+Definition omap_fields (meta : bool) (m : omap) : list (list N) :=
+  w_raw_field (o_idtag m) (o_id m) :: map (w_ofield meta) (o_fields m).
+
+Definition w_omap_line (key : list N) (m : omap) : list N :=
+  w_line key (60 :: join 44 (omap_fields (bytes_eqb key k_META) m) ++ [62]).
+
+(* record.rs::write_other *)
+Definition w_other_group (ff : N * N) (g : list N * hcoll) : option (list (list N)) :=
+  match snd g with
+  | CU vs => sequence (map (fun v => match w_other_value ff v with
+                                     | Some t => Some (w_line (fst g) t)
+                                     | None => None end) vs)
+  | CS ms => Some (map (w_omap_line (fst g)) ms)
+  end.
 
 Definition columns8 : list (list N) := [c_CHROM; c_POS; t_ID; c_REF; k_ALT; c_QUAL; k_FILTER; k_INFO].
 
@@ -341,6 +376,99 @@ Definition p_map (k : mkind) (s : list N) : option hmap :=
   end.
 
 (* ---------------------------------------------------------------------------------------- *)
+(* parser: structured other records (parser/record/value/map/other.rs) *)
+
+(* parse_other: the split_field loop; ID once, every other tag once *)
+Fixpoint o_steps (id : option (list N)) (os : list (list N * list N)) (fs : list (list N * list N))
+  : option (option (list N) * list (list N * list N)) :=
+  match fs with
+  | [] => Some (id, os)
+  | (k, v) :: t =>
+      if bytes_eqb k t_ID then
+        match id with None => o_steps (Some v) os t | Some _ => None end
+      else match assoc k os with Some _ => None | None => o_steps id (os ++ [(k, v)]) t end
+  end.
+
+Definition p_omap (s : list N) : option omap :=
+  match p_map_fields s with
+  | Some fs =>
+      match o_steps None [] fs with
+      | Some (Some id, os) => Some {| o_idtag := t_ID; o_id := id; o_fields := os |}
+      | _ => None
+      end
+  | None => None
+  end.
+
+(* parse_values (for every file format since 1f7dac7): '[' ... up to and including the first ']'
+   when there is one, else parse_value *)
+Definition p_values (s : list N) : option (list N * list N) :=
+  match s with
+  | b :: _ => if b =? 91 then
+                match split_once 93 s with
+                | Some (a, r) => Some (a ++ [93], r)
+                | None => p_value s
+                end
+              else p_value s
+  | [] => p_value s
+  end.
+
+(* the loop of parse_meta (ped = false) and parse_pedigree (ped = true): key, value, separator,
+   until there is no separator; the rest (which must start with '>') is returned.  Unlike
+   split_field it does not look for '>' before a key *)
+Fixpoint p_sfields (fuel : nat) (ped : bool) (ff : N * N) (s : list N)
+    (idtag : list N) (id : option (list N)) (os : list (list N * list N))
+  : option (list N * option (list N) * list (list N * list N) * list N) :=
+  match fuel with
+  | O => None
+  | S f =>
+      match split_once 61 s with
+      | None => None
+      | Some (k, r1) =>
+          let is_id := bytes_eqb k t_ID in
+          let is_ped_id := ped && ff_lt_43 ff && (bytes_eqb k s_Child || bytes_eqb k s_Derived) in
+          let next idtag' id' os' r2 :=
+            match r2 with
+            | [] => None
+            | c :: r3 => if c =? 44 then p_sfields f ped ff r3 idtag' id' os'
+                         else Some (idtag', id', os', r2)
+            end in
+          if is_id || is_ped_id then
+            match p_value r1 with
+            | None => None
+            | Some (v, r2) =>
+                match id with
+                | Some _ => None
+                | None => next (if is_id then idtag else k) (Some v) os r2
+                end
+            end
+          else
+            match (if negb ped && bytes_eqb k s_Values then p_values r1 else p_value r1) with
+            | None => None
+            | Some (v, r2) =>
+                match assoc k os with
+                | Some _ => None
+                | None => next idtag id (os ++ [(k, v)]) r2
+                end
+            end
+      end
+  end.
+
+Definition p_smap (ped : bool) (ff : N * N) (s : list N) : option omap :=
+  match s with
+  | b :: t =>
+      if b =? 60 then
+        match p_sfields (S (length t)) ped ff t t_ID None [] with
+        | Some (idtag, Some id, os, 62 :: _) => Some {| o_idtag := idtag; o_id := id; o_fields := os |}
+        | _ => None
+        end
+      else None
+  | [] => None
+  end.
+
+Definition p_meta (ff : N * N) (s : list N) : option omap := p_smap false ff s.
+Definition p_pedigree (ff : N * N) (s : list N) : option omap := p_smap true ff s.
+
+(* ---------------------------------------------------------------------------------------- *)
 (* parser: lines (header/parser.rs::parse_partial / finish) *)
 
 Fixpoint strip_prefix (p s : list N) : option (list N) :=
@@ -391,10 +519,31 @@ Definition is_map (ff : N * N) (v : list N) : bool :=
   | [] => false
   end.
 
-Fixpoint add_other (key v : list N) (l : list (list N * list (list N))) : list (list N * list (list N)) :=
+(* parser/record/value.rs::parse_value, the Key::Other arm *)
+Definition p_other_value (ff : N * N) (key v : list N) : option oval :=
+  if bytes_eqb key k_META then
+    match p_meta ff v with Some m => Some (OVMap m) | None => None end
+  else if bytes_eqb key k_PEDIGREE then
+    match p_pedigree ff v with Some m => Some (OVMap m) | None => None end
+  else if is_map ff v then
+    match p_omap v with Some m => Some (OVMap m) | None => None end
+  else Some (OVStr v).
+
+(* insert_other_record + Collection::add: the first value of a key decides the kind of its
+   collection; None = AddError::TypeMismatch / AddError::DuplicateId *)
+Fixpoint add_other (key : list N) (val : oval) (l : list (list N * hcoll)) : option (list (list N * hcoll)) :=
   match l with
-  | [] => [(key, [v])]
-  | (k', vs) :: t => if bytes_eqb key k' then (k', vs ++ [v]) :: t else (k', vs) :: add_other key v t
+  | [] => Some [(key, match val with OVStr v => CU [v] | OVMap m => CS [m] end)]
+  | (k', c) :: t =>
+      if bytes_eqb key k' then
+        match c, val with
+        | CU vs, OVStr v => Some ((k', CU (vs ++ [v])) :: t)
+        | CS ms, OVMap m =>
+            if existsb (fun x => bytes_eqb (o_id x) (o_id m)) ms then None
+            else Some ((k', CS (ms ++ [m])) :: t)
+        | _, _ => None
+        end
+      else match add_other key val t with Some t' => Some ((k', c) :: t') | None => None end
   end.
 
 Definition add_map (m : hmap) (l : list hmap) : option (list hmap) :=
@@ -449,9 +598,15 @@ Definition p_line (h : vheader) (line : list N) : option vheader :=
                     | Some l => Some (upd (hh_infos h) (hh_filters h) (hh_formats h) (hh_alts h) l (hh_others h))
                     | None => None end
         | None => None end
-      else if bytes_eqb key k_META || bytes_eqb key k_PEDIGREE || is_map (hh_ff h) v then None  (* not modelled *)
-      else Some (upd (hh_infos h) (hh_filters h) (hh_formats h) (hh_alts h) (hh_contigs h)
-                     (add_other key v (hh_others h)))
+      else
+        match p_other_value (hh_ff h) key v with
+        | Some val =>
+            match add_other key val (hh_others h) with
+            | Some ot => Some (upd (hh_infos h) (hh_filters h) (hh_formats h) (hh_alts h) (hh_contigs h) ot)
+            | None => None
+            end
+        | None => None
+        end
   end.
 
 (* the lines after the first: records until the #CHROM line, which must be the last *)
@@ -498,17 +653,3 @@ Fixpoint header_prefix (lines : list (list N)) : list (list N) :=
   end.
 
 Definition read_header (lines : list (list N)) : option vheader := parse_header (header_prefix lines).
-
-(* the lines this model does not cover (a textual, conservative criterion shared with the
-   harness): a record whose key is none of the six standard keys and is META or PEDIGREE or has a
-   value starting with '<' (a structured "other" record, from 4.3 or when it contains ID=) *)
-Definition unmodelled_line (line : list N) : bool :=
-  match p_record line with
-  | Some (key, v) =>
-      negb (bytes_eqb key k_fileformat || bytes_eqb key k_INFO || bytes_eqb key k_FILTER ||
-            bytes_eqb key k_FORMAT || bytes_eqb key k_ALT || bytes_eqb key k_contig) &&
-      (bytes_eqb key k_META || bytes_eqb key k_PEDIGREE || match v with 60 :: _ => true | _ => false end)
-  | None => false
-  end.
-
-Definition unmodelled_lines (lines : list (list N)) : bool := existsb unmodelled_line lines.
